@@ -341,6 +341,13 @@ def replay_and_validate(cfg, scenarios, workdir, tag, par=None, spec="PropTrace"
                 x["scenario"] = index.get(x["tid"])
                 x["cfg"] = cfg
                 res["viol"].append(x)
+            keep = os.environ.get("VERIF_KEEP_VIOL")
+            if keep and v["viol"]:
+                os.makedirs(keep, exist_ok=True)
+                tids = {x["tid"] for x in v["viol"]}
+                for t in tids:
+                    with open(os.path.join(keep, "%s-%d-%d.ndjson" % (tag, os.getpid(), t)), "w") as f:
+                        f.writelines(ln for ln in open(merged[k]) if ln.startswith('{"tid":%d,' % t))
             os.remove(merged[k])
     return res
 
